@@ -163,8 +163,16 @@ def generate(rng, tier, cls):
     if rng.chance(0.15):
         r['mutate'] = rng.randint(1, 4)
 
-    return {'actors': [{'id': 'P1', 'kind': 'writer', 'file': 'f1',
-                        'main_encoding': main, 'ops': ops}, r],
+    wspec = {'id': 'P1', 'kind': 'writer', 'file': 'f1',
+             'main_encoding': main, 'ops': ops}
+
+    if rng.chance(0.12):
+        wspec['shadow'] = rng.below(50)
+
+    if rng.chance(0.05):
+        wspec['subclassed'] = True
+
+    return {'actors': [wspec, r],
             'schedule': [], 'faults': [],
             # the reader of the writer's file and the reader of the
             # reference file step alternately: two iterations alive at once
